@@ -61,6 +61,7 @@ pub struct Counters {
     pub follower_commits: u64,
     pub notifications: u64,
     pub step_downs: u64,
+    pub replayed_applies: u64,
 }
 
 pub struct Online {
@@ -105,6 +106,21 @@ pub struct Online {
     /// which checks are muted (a scenario may legitimately exercise e.g. tier-N faults only for
     /// some properties)
     pub tier_n_active: bool,
+    installed_upto: HashMap<(u32, u32), u64>,
+    tainted: std::collections::HashSet<(u32, u32)>,
+    /// (node, index) -> (incarnation, ok, cmd hash) of the first apply
+    applied_by_inc: HashMap<(u32, u64), (u32, bool, u64)>,
+    /// global event sequence number (strict order within one millisecond)
+    pub seq: u64,
+    pub call_seq: BTreeMap<u64, u64>,
+    pub ret_seq: BTreeMap<u64, u64>,
+    /// policy under which each read op was actually served (from ReadServed hooks in its window)
+    pub read_phase_start: Option<u64>,
+    pub lease: super::monitor2::LeaseMon,
+    /// (snapshot last index, term) -> state machine last_applied at generation
+    snapshot_content: HashMap<(u64, u64), u64>,
+    /// (node, inc) -> (boundary, content upto) of an installed snapshot whose content was ahead
+    content_ahead: HashMap<(u32, u32), (u64, u64)>,
 }
 
 pub fn maj(n: usize) -> usize {
@@ -161,6 +177,16 @@ impl Online {
             held_committed: HashMap::new(),
             commit_index: HashMap::new(),
             tier_n_active: false,
+            installed_upto: HashMap::new(),
+            tainted: std::collections::HashSet::new(),
+            applied_by_inc: HashMap::new(),
+            seq: 0,
+            call_seq: BTreeMap::new(),
+            ret_seq: BTreeMap::new(),
+            read_phase_start: None,
+            lease: super::monitor2::LeaseMon::default(),
+            snapshot_content: HashMap::new(),
+            content_ahead: HashMap::new(),
         }
     }
 
@@ -193,6 +219,23 @@ impl Online {
     }
 
     pub fn on_event(&mut self, t: u64, ev: &Ev) {
+        self.seq += 1;
+        {
+            let (view, roles) = (&self.view, &self.roles);
+            self.lease.on_event(t, ev, view, roles);
+        }
+        match ev {
+            Ev::Invoke { op, .. } => {
+                self.call_seq.insert(*op, self.seq);
+            }
+            Ev::Return { op, .. } => {
+                self.ret_seq.insert(*op, self.seq);
+            }
+            Ev::Phase { name } if name == "heal+quiet" => {
+                self.read_phase_start = Some(self.seq);
+            }
+            _ => {}
+        }
         match ev {
             Ev::Start { node, inc, .. } => {
                 self.incarnation.insert(*node, *inc);
@@ -250,15 +293,10 @@ impl Online {
                 self.vote_resets.entry(*node).or_default().push((t, *term));
             }
             Ev::VoteReply { voter, voter_inc, candidate, req_term, granted, reply_term } => {
-                let m = self.max_term_seen.get(voter).cloned().unwrap_or(0);
-                if *reply_term < m {
-                    self.find(
-                        t,
-                        "C02",
-                        "term-decreased-after-restart",
-                        json!({"node": voter, "max_term_seen_before": m, "term_in_vote_reply": reply_term}),
-                    );
-                }
+                // NOTE: the term carried by a VoteResponse is the term the follower had *before*
+                // processing the request (it answers with the pre-update value), so it may lag
+                // the node's current term without the term having decreased: not checked here.
+                let _ = reply_term;
                 if *granted {
                     self.counters.vote_grants += 1;
                     self.record_grant(t, *voter, *voter_inc, *req_term, *candidate, "wire");
@@ -365,40 +403,107 @@ impl Online {
             Ev::Apply { node, inc, index, cmd, ok, .. } => {
                 self.counters.applies += 1;
                 let key = (*node, *inc);
+                let h = cmd_hash(cmd);
+                // (a) entry covered by a snapshot this incarnation installed: applied on top of
+                // the replaced state. Everything this incarnation applies afterwards is a
+                // consequence, so it is excluded from the other C06 oracles.
+                if let Some(si) = self.installed_upto.get(&key).cloned()
+                    && *index <= si
+                {
+                    self.find(t, "C06", "stale-batch-applied-after-snapshot-install", json!({"node": node, "inc": inc, "snapshot_last_included": si, "applied": index}));
+                    self.tainted.insert(key);
+                }
+                // (b) replay after restart of an entry an earlier incarnation already applied:
+                // the restored state must make the replay a no-op (C15). Observable when the
+                // replayed CAS reports a different outcome.
+                let earlier_inc = self.applied_by_inc.get(&(*node, *index)).cloned();
+                if let Some((inc0, ok0, h0)) = earlier_inc
+                    && inc0 != *inc
+                {
+                    if h0 == h && ok0 != *ok {
+                        self.find(t, "C15", "replay-after-restart-changed-cas-outcome", json!({"node": node, "index": index, "first_inc": inc0, "first_ok": ok0, "replay_inc": inc, "replay_ok": ok, "cmd": crate::model::show_cmd(cmd)}));
+                        self.tainted.insert(key);
+                    }
+                    self.counters.replayed_applies += 1;
+                } else {
+                    self.applied_by_inc.insert((*node, *index), (*inc, *ok, h));
+                }
+                // (c) replay of entries whose effects the installed snapshot already contained
+                // (snapshot content ahead of its recorded boundary, the C16 defect)
+                if let Some((b, c)) = self.content_ahead.get(&key).cloned()
+                    && *index > b
+                    && *index <= c
+                {
+                    if let Some((h0, ok0, _)) = self.applied.get(index).cloned()
+                        && h0 == h
+                        && ok0 != *ok
+                    {
+                        self.find(t, "C06", "entry-replayed-on-snapshot-that-already-contained-it-changed-outcome", json!({"node": node, "inc": inc, "index": index, "snapshot_boundary": b, "snapshot_content_upto": c, "first_ok": ok0, "replay_ok": ok}));
+                    }
+                    self.tainted.insert(key);
+                }
+                let tainted = self.tainted.contains(&key);
                 if let Some(prev) = self.last_applied.get(&key).cloned()
                     && *index != prev + 1
+                    && !tainted
                 {
                     let sig = if *index <= prev { "index-applied-twice-or-backwards" } else { "apply-gap" };
                     self.find(t, "C06", sig, json!({"node": node, "inc": inc, "prev_applied": prev, "applied": index}));
                 }
                 self.last_applied.insert(key, *index);
-                let h = cmd_hash(cmd);
-                match self.applied.get(index).cloned() {
-                    Some((h0, ok0, n0)) => {
-                        if h0 != h || ok0 != *ok {
-                            self.find(
-                                t,
-                                "C06",
-                                if h0 != h { "different-command-at-same-index" } else { "different-result-at-same-index" },
-                                json!({"index": index, "node_a": n0, "node_b": node, "cmd_b": crate::model::show_cmd(cmd), "ok_a": ok0, "ok_b": ok}),
-                            );
+                if !tainted && !(earlier_inc.is_some_and(|(i0, _, _)| i0 != *inc)) {
+                    match self.applied.get(index).cloned() {
+                        Some((h0, ok0, n0)) => {
+                            if n0 != *node && (h0 != h || ok0 != *ok) {
+                                self.find(
+                                    t,
+                                    "C06",
+                                    if h0 != h { "different-command-at-same-index" } else { "different-result-at-same-index" },
+                                    json!({"index": index, "node_a": n0, "node_b": node, "cmd_b": crate::model::show_cmd(cmd), "ok_a": ok0, "ok_b": ok}),
+                                );
+                            }
                         }
-                    }
-                    None => {
-                        self.applied.insert(*index, (h, *ok, *node));
+                        None => {
+                            self.applied.insert(*index, (h, *ok, *node));
+                        }
                     }
                 }
                 if let Some(v) = cmd_value(cmd) {
                     self.applied_values.entry(v).or_default().push((*node, *index, *ok, t));
                 }
             }
-            Ev::SnapshotInstall { node, inc, last_index, .. } => {
+            Ev::SnapshotInstall { node, inc, last_index, last_term } => {
                 self.counters.installs += 1;
+                if let Some(prev) = self.last_applied.get(&(*node, *inc)).cloned()
+                    && prev > *last_index
+                {
+                    self.find(t, "C06", "installed-snapshot-older-than-applied-state", json!({"node": node, "inc": inc, "applied_before_install": prev, "snapshot_last_included": last_index}));
+                    self.tainted.insert((*node, *inc));
+                }
+                // content of this snapshot may be ahead of its boundary (C16): remember how far
+                if let Some(c) = self.snapshot_content.get(&(*last_index, *last_term)).cloned()
+                    && c > *last_index
+                {
+                    self.content_ahead.insert((*node, *inc), (*last_index, c));
+                }
                 self.last_applied.insert((*node, *inc), *last_index);
+                let e = self.installed_upto.entry((*node, *inc)).or_insert(0);
+                *e = (*e).max(*last_index);
                 self.sig_trace.push(0x5000 + *node as u64);
             }
-            Ev::SnapshotGenerate { .. } => {
+            Ev::SnapshotGenerate { node, inc, last_index, last_term, sm_last_applied } => {
                 self.counters.snapshots += 1;
+                let e = self.snapshot_content.entry((*last_index, *last_term)).or_insert(0);
+                *e = (*e).max(*sm_last_applied);
+                // C16: a snapshot's recorded boundary matches the state it contains
+                if *sm_last_applied != *last_index && !self.tainted.contains(&(*node, *inc)) {
+                    self.find(
+                        t,
+                        "C16",
+                        "snapshot-content-ahead-of-recorded-boundary",
+                        json!({"node": node, "recorded_last_included": [last_index, last_term], "state_machine_last_applied_at_generation": sm_last_applied}),
+                    );
+                }
             }
             Ev::ReadServed { policy, .. } => {
                 self.counters.reads_served += 1;
